@@ -1860,12 +1860,22 @@ def persist_source_case(ctx, a):
     """Delta(...) with exactly the arguments of `a`, each carrying a payload that names it: which one becomes Delta.diff, read how
     (the mode a path is opened in; whether safe_to_import reaches the deserializer).  Correspondence: PersistModel.delta_source.
     Oracle (the property): a delta persisted as bytes / to a path / to a file object, given alone, comes back with its payload."""
-    from deepdiff import DeepDiff, Delta
-    from deepdiff.helper import FlatDeltaRow
-    from deepdiff.serialization import pickle_dump, pickle_load
-    import deepdiff.delta as DM
-    k, p, f, dd, fd, fr = a
     kw, seen, opened = {}, [], []
+    case = {"persist": "source", "args": list(a)}
+    try:
+        _persist_source_kwargs(ctx, a, kw)
+    except Exception as e:  # noqa  (preparing the arguments uses pickle_dump)
+        ctx.seen(("persist-source", a))
+        ctx.fail(dict(case, stage="dump", error=type(e).__name__), "pickle_dump raised %s while the persisted forms of a payload were prepared" % type(e).__name__)
+        return ("sx_source (delta_source %s)" % _coq_args(a), ["raises", type(e).__name__], case)
+    return _persist_source_observe(ctx, a, kw, seen, opened, case)
+
+
+def _persist_source_kwargs(ctx, a, kw):
+    from deepdiff import DeepDiff
+    from deepdiff.helper import FlatDeltaRow
+    from deepdiff.serialization import pickle_dump
+    k, p, f, dd, fd, fr = a
     if k == "DeepDiff":
         kw["diff"] = DeepDiff({"m": "a"}, {"m": "deepdiff"})
     elif k == "Mapping":
@@ -1887,6 +1897,13 @@ def persist_source_case(ctx, a):
         kw["flat_dict_list"] = [{"path": ["m"], "action": "values_changed", "value": "flat_dicts"}]
     if fr:
         kw["flat_rows_list"] = [FlatDeltaRow(path=["m"], action="values_changed", value="flat_rows")]
+
+
+def _persist_source_observe(ctx, a, kw, seen, opened, case):
+    from deepdiff import Delta
+    from deepdiff.serialization import pickle_load
+    import deepdiff.delta as DM
+    k, p, f, dd, fd, fr = a
     safe = {"verif_c14_mod.X"}
 
     def spy_load(content=None, file_obj=None, safe_to_import=None):
@@ -1923,7 +1940,6 @@ def persist_source_case(ctx, a):
             obs, payload = ["raises", type(e).__name__], None
     finally:
         del DM.open
-    case = {"persist": "source", "args": list(a)}
     ctx.seen(("persist-source", a))
     given = [nm for nm, on in zip(("delta_path", "delta_file", "delta_diff", "flat_dict_list", "flat_rows_list"), a[1:]) if on]
     alone = {("strings", ()): "bytes", ("None", ("delta_path",)): "path", ("None", ("delta_file",)): "file"}.get((k, tuple(given)))
@@ -1973,7 +1989,11 @@ def persist_choice_cases(ctx):
     import deepdiff.serialization as S
     rec, loaders, dumpers = _persist_fns()
     cases = []
-    content = S.pickle_dump(_marker("bytes"))
+    try:
+        content = S.pickle_dump(_marker("bytes"))
+    except Exception as e:  # noqa
+        ctx.fail({"persist": "deserializer-choice", "stage": "dump", "error": type(e).__name__}, "pickle_dump raised %s" % type(e).__name__)
+        return cases
     for nm, fn in loaders:
         del rec[:]
         case = {"persist": "deserializer-choice", "deserializer": nm}
@@ -2279,7 +2299,8 @@ def on_source_tie_break(ctx, name, rec):
     if diff["totals"]["persistent_id"] and not only["dump"]:
         only["dump"] = [(pi, fi) for pi in range(len(persist_payloads())) for fi in (0, 2)]
     out["first_differences"] = {"delta_source arguments (diff kind, delta_path, delta_file, delta_diff, flat_dict_list, flat_rows_list)": only["source"][:6],
-                                "pickle_dump (payload index, file object)": [[pi, PERSIST_FILES[fi][0]] for pi, fi in only["dump"][:6]]}
+                                "pickle_dump (payload index, file object)": [[pi, PERSIST_FILES[fi][0]] for pi, fi in only["dump"][:6]],
+                                "json_convertor_default (default_mapping, class of the object)": [list(x) for x in (only.get("json") or [])[:6]]}
     b0, f0 = len(ctx.breaks), len(ctx.failures)
     if only["source"] or only["choice"] or only["dump"] or only.get("json"):
         out["judged_on_the_implementation"] = persist_stream(ctx, only)
